@@ -411,6 +411,17 @@ def _r067(ck, prog, cfg):
                 good = k.kind in ("path", "call") and "key" in k.fields
         ck.check(good, "R06.7", "apply_remote_deltas:owner-shard" + _tag(cfg), "the receiving shard is not hash_key(delta.key)", ar.where(t["ln"]),
                  detail="shards[hash_key(&delta.key)]")
+        # per iteration: every delta taken from the batch reaches the forwarding call (no `continue` that drops one)
+        from .c01 import _loop_heads
+        heads = _loop_heads(ar)
+        ck.check(len(heads) >= 1, "R06.7", "apply_remote_deltas:loop" + _tag(cfg), "no loop over the received batch found", ar.where())
+        for hb, (none_t, some_t) in heads.items():
+            nexts = {bb for bb, tt in ar.calls() if is_callee(tt, r"Iterator>::next$")}
+            skip = lib2.path_avoiding(ar, some_t, lambda x: x in nexts or ar.term(x)["k"] == "return", lambda x, b=b: x == b, (), from_succ=False)
+            ck.check(skip is None, "R06.7", "apply_remote_deltas:every-iteration-forwards" + _tag(cfg),
+                     "an iteration over the received batch can end without forwarding its delta to a shard (a delta is dropped: it is never "
+                     "merged, so a greater stamp or additional hash fields it carried are lost on this replica)", ar.where(t["ln"]),
+                     detail="forwarding call on every path of the loop body")
         # inside the loop over all deltas, no filter
         skips = [callee(tt).rsplit("::", 1)[-1] for bb, tt in ar.calls() if is_callee(tt, r"Iterator>::(filter|take|skip|step_by|take_while|skip_while|filter_map)\b")]
         ck.check(not skips, "R06.7", "apply_remote_deltas:all-deltas" + _tag(cfg), "received deltas are filtered/truncated (%s) before being applied" % skips, ar.where(),
